@@ -328,3 +328,50 @@ func ZZH_C10_net_changes() {
 	zz.Assert("C10.net.same-net-changes-same-root", zz.EqBytes(r0, r1))
 	zz.Assert("C10.net.same-value-read-back", ok0 == ok1 && (!ok0 || zz.EqBytes(v0, v1)))
 }
+
+// ZZH_C10_selfdestruct: an account with balance, nonce, code and storage is committed; in the next
+// block the contract destroys itself (the EVM's SELFDESTRUCT reaches the ledger as Suiside),
+// possibly after a storage write in the same block. The root of that block commits to what was
+// executed: a node that keeps running (account cache) and a node that reopens the database read the
+// same balance, nonce, code and storage afterwards, and the same change in the following block
+// gives both the same root.
+// zz:also C13 C01
+func ZZH_C10_selfdestruct() {
+	store := zz.NewStore()
+	cache, _ := NewAccountCache()
+	l := zzNewLedger(store, cache)
+	a := zzAddrs[0]
+	l.SetBalance(a, big.NewInt(50))
+	l.SetNonce(a, 3)
+	l.SetCode(a, []byte{0x60, 0x00})
+	l.SetState(a, []byte("k"), []byte{zz.U8("v1")}, nil)
+	zzCommit(l, 1)
+	if zz.Choice("writeBeforeDestruct", 2) == 1 {
+		l.SetState(a, []byte("k"), []byte{zz.U8("v2")}, nil)
+	}
+	l.Suiside(a)
+	zzCommit(l, 2)
+	cache2, _ := NewAccountCache()
+	l2 := zzNewLedger(store, cache2)
+	zz.Assert("C10.destruct.balance-same-through-cache-and-reopen", l.GetBalance(a).Cmp(l2.GetBalance(a)) == 0)
+	zz.Assert("C10.destruct.nonce-same-through-cache-and-reopen", l.GetNonce(a) == l2.GetNonce(a))
+	zz.Assert("C10.destruct.code-same-through-cache-and-reopen", zz.EqBytes(l.GetCode(a), l2.GetCode(a)))
+	ok1, s1 := l.GetState(a, []byte("k"))
+	ok2, s2 := l2.GetState(a, []byte("k"))
+	zz.Assert("C10.destruct.storage-same-through-cache-and-reopen", zz.And(ok1 == ok2, zz.EqBytes(s1, s2)))
+	// the same change in block 3 on both nodes
+	switch zz.Choice("next", 3) {
+	case 0:
+		l.SetBalance(a, big.NewInt(5))
+		l2.SetBalance(a, big.NewInt(5))
+	case 1:
+		l.SetState(a, []byte("k2"), []byte("x"), nil)
+		l2.SetState(a, []byte("k2"), []byte("x"), nil)
+	case 2:
+		l.SetNonce(a, 9)
+		l2.SetNonce(a, 9)
+	}
+	_, r3 := l.FlushDirtyData()
+	_, r3b := l2.FlushDirtyData()
+	zz.Assert("C10.destruct.next-root-same-on-running-and-restarted-node", r3.String() == r3b.String())
+}
